@@ -9,7 +9,8 @@
 
     [step_leg] replays [update] of Model/Occupancy.v with cells computed from the position bits by Model/Cells.v
     ([idx] = CuboidCells._cell_index on binary64) and checks
-      (a) model state == recorded internals (occupant lists per cell in order, surplus lists, active cell, active id);
+      (a) model state == recorded internals (occupant and surplus list of every cell as multisets, active cell,
+          active id);
       (b) the hypotheses of [update_inv] for this leg, as booleans;
       (c) same active identifier in another cell => the previous event was a cell-boundary event and the new cell is
           the neighbour (+-1 modulo the count in exactly one direction).
@@ -68,10 +69,23 @@ Definition opt_lz_eqb (a b : option lz) : bool :=
 Definition nonempty_entries (m : list (lz * list lz)) : list (lz * list lz) :=
   filter (fun cl => negb (is_nil (snd cl))) m.
 
+Fixpoint remove_one_lz (x : lz) (l : list lz) : option (list lz) :=
+  match l with
+  | [] => None
+  | y :: r => if list_Z_eqb x y then Some r
+              else match remove_one_lz x r with Some r' => Some (y :: r') | None => None end
+  end.
+(** same identifiers with the same multiplicities (the order inside a list is a representation detail) *)
+Fixpoint same_members (a b : list lz) : bool :=
+  match a with
+  | [] => match b with [] => true | _ => false end
+  | x :: r => match remove_one_lz x b with Some b' => same_members r b' | None => false end
+  end.
+
 Definition same_map (m rec : list (lz * list lz)) : bool :=
   Nat.eqb (length m) (length rec)
   && forallb (fun cl => match aget list_Z_eqb m (fst cl) with
-                        | Some l => llist_eqb l (snd cl)
+                        | Some l => same_members l (snd cl)
                         | None => false
                         end) rec.
 
